@@ -875,10 +875,30 @@ def _r15_late_start_of_halted_stage(ctx, rep) -> None:
     rep.rule("C05.R15", "_start_if_ready: on the branch taken for a stage that is neither NOT_STARTED nor RUNNING, CompleteWorkflow is pushed under `stage.status.is_halt` before the message is dropped")
     sir = prog.func("stabilize.handlers.start_stage.handler", "StartStageHandler._start_if_ready").node
     pushes = [c for c in ast.walk(sir) if isinstance(c, ast.Call) and isinstance(c.func, ast.Name) and c.func.id == "CompleteWorkflow"]
+    from ..statuspred import status_set
+    T = ctx.st
+    HALT = T.sets["HALT_STATUSES"]
     ok = False
     for c in pushes:
         cs = conditions_at(sir, c)
-        if ("stage.status == WorkflowStatus.NOT_STARTED", False) in cs and ("stage.status == WorkflowStatus.RUNNING", False) in cs and ("stage.status.is_halt", True) in cs:
+        if not (("stage.status == WorkflowStatus.NOT_STARTED", False) in cs and ("stage.status == WorkflowStatus.RUNNING", False) in cs):
+            continue
+        # statuses under which this push happens: every status atom among the dominating conditions narrows the set; an atom that
+        # is not a status predicate (a constant, another variable) makes the push conditional on something else -> not counted
+        allowed, pure = frozenset(T.members), True
+        for text, truth in cs:
+            try:
+                e = ast.parse(text, mode="eval").body
+            except SyntaxError:
+                pure = False
+                continue
+            ss = status_set(e, "stage.status", T)
+            if ss is None:
+                if "stage." not in text and "message" not in text and "readiness" not in text:
+                    pure = False
+                continue
+            allowed = allowed & (ss if truth else frozenset(T.members) - ss)
+        if pure and HALT <= allowed:
             ok = True
     ignores = [r for r in ast.walk(sir) if isinstance(r, ast.Return) and r.value is None and ("stage.status == WorkflowStatus.NOT_STARTED", False) in conditions_at(sir, r) and ("stage.status == WorkflowStatus.RUNNING", False) in conditions_at(sir, r)]
     if not ignores:
